@@ -126,16 +126,18 @@ def run_trace(ctx, impl, cfg, ops, name="t", judge=True):
             new = rig.order[n0:]
             okflag = True
             for ev in new:
+                if not impl.plain_ok(ev) and impl.ev_id(ev) is not None and impl.ev_id(ev) >= 0:
+                    okflag = False
                 if not impl.json_ok(ev):
                     unenc[0] = True
-                    if impl.ev_id(ev) is not None and impl.ev_id(ev) >= 0:
-                        okflag = False
-                        kk = impl.bad_kind(op[4]) if op[0] == "msg" else None
-                        if kk:
-                            kinds.add(kk)
+                    kk = impl.bad_kind(op[4]) if op[0] == "msg" else None
+                    if kk:
+                        kinds.add(kk)
+                    bad("oracle/serialize-raises" + ("-" + kk if kk else ""), "flogfile.serialize_wrapper raises for the event "
+                        "logged by op #%d %r" % (k, op), step=k)
             flags.append((okflag, reprok))
             if op[0] == "msg":
-                nat[op[6]] = impl.native(op[4])
+                nat[op[6]] = "posargs" if op[5] == "posargs" else (impl.native(op[4]) or op[5] in ("plain", "message-kw"))
             # ---- oracle: never raises, numbers strictly increase
             if exc is not None:
                 bad("oracle/msg-raises", "log.msg raised %r for op #%d %r" % (exc, k, op), step=k)
@@ -166,7 +168,9 @@ def run_trace(ctx, impl, cfg, ops, name="t", judge=True):
             if qual and (ir0 is None or stuck0):
                 trig = [ev for ev in new if isinstance(ev.get("level"), int) and ev["level"] >= flog.WEIRD]
                 if trig:
-                    expected.append(dict(step=k, trigger=impl.view(trig[0]),
+                    # (with a negative size limit the event itself never reaches the qualifier: its internal-error
+                    #  fallback is the trigger)
+                    expected.append(dict(step=k, trigger=impl.view(trig[0]), triggers=[impl.view(e) for e in trig],
                                          buffered=[impl.view(e) for e in L.get_buffered_events()], swallowed=stuck0))
             ir = L.get_active_incident_reporter()
             steps.append([NORET if r is None or not isinstance(r, int) else r, L.incidents_declared, L.incidents_recorded,
@@ -184,7 +188,7 @@ def run_trace(ctx, impl, cfg, ops, name="t", judge=True):
         # ---- oracle: every expected incident was recorded, with its trigger and everything buffered
         lost = False
         for x in expected:
-            mine = [f for f in files if f[0] == x["trigger"]]
+            mine = [f for f in files if f[0] in x["triggers"]]
             missing = [] if not mine else [v for v in x["buffered"] if v not in mine[0][1:]]
             if not mine or missing:
                 lost = True
@@ -216,7 +220,11 @@ def run_trace(ctx, impl, cfg, ops, name="t", judge=True):
                 bad("oracle/format-raises", "format_message raised %r on event %r (%s)" % (e, v, where))
                 return
             cid = v[1]
-            if (cid is not None and cid < 0) or nat.get(cid):
+            if nat.get(cid) == "posargs":
+                if t1 != t0:
+                    bad("oracle/readback-posargs-render-differs", "%s: event %r logged with positional arguments renders %r after "
+                        "read-back, %r when emitted (the args tuple comes back as a list)" % (where, v, t1, t0))
+            elif (cid is not None and cid < 0) or nat.get(cid):
                 if t1 != t0:
                     bad("oracle/readback-differs", "%s: event %r renders %r, emitted one renders %r" % (where, v, t1, t0))
         for fn in rig.published:
@@ -238,7 +246,7 @@ def run_trace(ctx, impl, cfg, ops, name="t", judge=True):
             back = None
             bad("oracle/logfile-unreadable", "the LogFileObserver file cannot be read back: %r" % (e,))
         if back is not None:
-            want = [impl.view(e) for e in rig.order if impl.json_ok(e)]
+            want = [impl.view(e) for e in rig.order if impl.json_ok(e)]   # all of them, unless serialize-raises was reported
             got = [impl.view(d) for d in back]
             if got != want:
                 bad("oracle/logfile-missing-events", "LogFileObserver file holds %d events, %d encodable events were emitted; "
@@ -606,14 +614,29 @@ def run_corpus(ctx, impl):
 
 
 def replay_model_witnesses(ctx, impl):
-    """the witnesses of the *_refuted theorems of props/C18.v, replayed on the real code"""
-    for name, cfg, ops in [
-        ("one_bad_event_refuted/deep-nesting", (True, False),
-         [["msg", None, 0, 20, ["deep", 3000], "plain", 0], ["msg", None, 0, 30, ["int", 1], "plain", 1], ["timer"]]),
-        ("one_bad_event_refuted/huge-int", (True, True),
-         [["msg", None, 0, 20, ["hugeint", 5000], "plain", 0], ["msg", None, 0, 30, ["int", 1], "plain", 1], ["timer"],
-          ["msg", None, 2, 35, ["int", 2], "plain", 2], ["timer"]]),
+    """props/C18.v has no *_refuted theorem on this tree; the Examples of lib/LogBufProofs.v are replayed on the real code
+    (ex_incident_trailing, ex_incident_nontrailing_then_later, ex_negative_limit)"""
+    deep = ["deep", 3000]
+    for name, cfg, ops, want in [
+        ("ex_incident_trailing", (True, True),
+         [["msg", None, 0, 20, deep, "plain", 0], ["msg", None, 2, 20, ["int", 1], "plain", 1], ["msg", None, 0, 30, ["int", 1], "plain", 2],
+          ["msg", None, 0, 20, ["list", [deep, ["badrepr"]]], "plain", 3], ["msg", None, 0, 20, ["int", 1], "plain", 4], ["timer"]],
+         dict(files=[[2, 0, 1, 2, 3, 4]], recorded=1, declared=1)),
+        ("ex_incident_nontrailing_then_later", (True, False),
+         [["msg", None, 0, 20, deep, "plain", 0], ["msg", None, 0, 30, ["hugeint", 5000], "plain", 1],
+          ["msg", None, 2, 40, ["int", 1], "plain", 2]],
+         dict(files=[[1, 0, 1], [2, 0, 1, 2]], recorded=2, declared=2)),
+        ("ex_negative_limit", (False, False),
+         [["size", 0, 20, -1], ["msg", None, 0, 20, ["int", 1], "plain", 0]],
+         dict(files=[], recorded=0, declared=0, bufs=[-1])),
     ]:
         t = run_trace(ctx, impl, cfg, ops, name="witness", judge=True)
+        fin = t["final"]
+        got = dict(files=[[v[1] for v in f] for f in fin["files"]], recorded=fin["recorded"], declared=fin["declared"])
+        if "bufs" in want:
+            got["bufs"] = [v[1] for f, d in fin["bufs"] for l, q in d for v in q]
         ctx.case(["witness", name], nontrivial=True)
-        ctx.hist("model_witness_on_impl", "%s: declared %d recorded %d" % (name, t["final"]["declared"], t["final"]["recorded"]))
+        ctx.traces += 1
+        if got != want:
+            ctx.fail("correspondence/example-" + name, "the Example %s of lib/LogBufProofs.v does not describe the implementation: "
+                     "model %r, implementation %r" % (name, want, got), replay=dict(cfg=list(cfg), ops=ops), has_input=False)
